@@ -295,9 +295,9 @@ def run(res, ctx):
                                   {"format": fmt, "seeds": [ref[0], sd], "tree": "pkg/{Settings,settings,SETTINGS}.py Lib/x.py lib/{x,X}.py a/B.py A/b.py z\u00e9.py ze\u0301.py Z\u00c9.py",
                                    "first_difference_at": i, "a": ref[1][max(0, i - 100):i + 100], "b": text[max(0, i - 100):i + 100]})
                     break
-        # a message that quotes a set display (listed known finding C08-set-display-quoted-in-message): the reports may differ inside the quoted braces only
+        # messages that quote a set / dict display (defect C08-set-display-quoted-in-message, repaired by /repo 044ca88): identical under every hash seed, no addresses
         stree = os.path.join(scratch.root, "settree"); os.makedirs(stree)
-        open(os.path.join(stree, "perm.py"), "w").write("import os\nos.chmod({'alpha', 'beta', 'gamma'}, 0o777)\nos.chmod('/etc/x', 0o777)\nimport pickle\n")
+        open(os.path.join(stree, "perm.py"), "w").write("import os\nos.chmod({'alpha', 'beta', 'gamma'}, 0o777)\nos.chmod('/etc/x', 0o777)\nimport pickle\nos.chmod({'a': 1, 'b': [2]}, 0o775)\nos.chmod(['x', 'y'], 0o777)\n")
         texts_ = {}
         for sd in (0, 1, 2, 3):
             out = os.path.join(scratch.root, f"set_{sd}")
@@ -306,13 +306,15 @@ def run(res, ctx):
             if os.path.exists(out):
                 texts_[sd] = strip_volatile("json", open(out, encoding="utf-8").read())
         if len(set(texts_.values())) > 1:
-            norm_ = lambda t: re.sub(r"\(\{('[a-z]+'(?:, )?)+\}\)", lambda m: "({" + ", ".join(sorted(re.findall(r"'[a-z]+'", m.group(0)))) + "})", t)
-            if len({norm_(t) for t in texts_.values()}) == 1:
-                res.known_finding("C08-set-display-quoted-in-message")
-            else:
-                a_, b_ = list(texts_.values())[:2]
-                res.violation("two runs over the same inputs produced different machine-readable reports (beyond the quoted set display of the listed known finding)",
-                              {"program": "import os / os.chmod({'alpha', 'beta', 'gamma'}, 0o777) / os.chmod('/etc/x', 0o777) / import pickle", "a": a_[:800], "b": b_[:800]})
+            a_, b_ = list(texts_.values())[:2]
+            i_ = next((j for j in range(min(len(a_), len(b_))) if a_[j] != b_[j]), 0)
+            res.violation("two runs over the same inputs produced different machine-readable reports (a message quoting a set / dict display: fixed defect C08-set-display-quoted-in-message is back?)",
+                          {"program": open(os.path.join(stree, "perm.py")).read(), "a": a_[max(0, i_ - 200):i_ + 200], "b": b_[max(0, i_ - 200):i_ + 200]})
+        for t_ in texts_.values():
+            m_ = re.search(r"object at 0x[0-9a-fA-F]+", t_)
+            if m_:
+                res.violation("a report contains a memory address", {"program": open(os.path.join(stree, "perm.py")).read(), "excerpt": t_[max(0, m_.start() - 150):m_.end() + 20]})
+                break
         # ---------------- (3b) several reports written in ONE process: what an earlier report contained must not show in a later one (seeded change C08-m7 kept SARIF
         #      rule descriptors — whose precision / tags come from the first finding of the rule — in a module-level cache across reports)
         pairs_ = [("cur.execute('SELECT a FROM t WHERE b = %s' % x)\nq = 'DELETE FROM t WHERE c = ' + y\n", "q = 'SELECT a FROM t WHERE b = %s' % x\ncur.execute('UPDATE t SET c = ' + y)\n"),
